@@ -52,6 +52,28 @@ template <class T, size_t M, size_t N, size_t P> void op_badindex3(Ctx &c) {
     c.run([&] { if (w) a(i, j, k) = (T)1; else r = a(i, j, k); });
     c.retv(r);
 }
+template <class T, size_t M, size_t N, size_t P, size_t Q> void op_badindex4(Ctx &c) {
+    auto &a = c.own<Tensor<T, M, N, P, Q>>(0, true);
+    const int d[4] = {(int)M, (int)N, (int)P, (int)Q}; int ix[4];
+    for (int k = 0; k < 4; ++k) ix[k] = (int)(mix2(c.p1(), (uint64_t)k) % (uint64_t)d[k]);
+    int over = 1 + (int)((c.p3() >> 4) % 3), ax = (int)(c.p3() % 4);
+    ix[ax] = (c.p2() & 1) ? d[ax] + over - 1 : -d[ax] - over;
+    uint32_t w = (c.p3() >> 8) % 2;
+    T r = 0;
+    c.run([&] { if (w) a(ix[0], ix[1], ix[2], ix[3]) = (T)1; else r = a(ix[0], ix[1], ix[2], ix[3]); });
+    c.retv(r);
+}
+template <class T, size_t M, size_t N, size_t P> void op_badindex_map3(Ctx &c) {
+    TensorMap<T, M, N, P> a(c.buf<T>(0, M * N * P, true));
+    const int d[3] = {(int)M, (int)N, (int)P}; int ix[3];
+    for (int k = 0; k < 3; ++k) ix[k] = (int)(mix2(c.p1(), (uint64_t)k) % (uint64_t)d[k]);
+    int over = 1 + (int)((c.p3() >> 4) % 3), ax = (int)(c.p3() % 3);
+    ix[ax] = (c.p2() & 1) ? d[ax] + over - 1 : -d[ax] - over;
+    uint32_t w = (c.p3() >> 8) % 2;
+    T r = 0;
+    c.run([&] { if (w) a(ix[0], ix[1], ix[2]) = (T)1; else r = a(ix[0], ix[1], ix[2]); });
+    c.retv(r);
+}
 // the same through a map over an exact-extent buffer
 template <class T, size_t M, size_t N> void op_badindex_map(Ctx &c) {
     TensorMap<T, M, N> a(c.buf<T>(0, M * N, true));
